@@ -41,7 +41,7 @@ def run(pid, tier, seed):
         return out
     name = pc["name"]
     if rec.get("holds") is False:
-        out["obligations"].append({"name": name, "backend": "native-exec", "tier": "Kb", "status": "failed", "ms": int((time.time() - t0) * 1000), "bound": bound})
+        out["bounded_items"] = [{"harness": "probe::" + pc["func"], "bound": bound, "status": "failed", "what": pc["what"]}]
         out["violations"].append({"obligation": name, "kind": "bounded probe on the real code found a counterexample", "where": pc.get("where", ""), "code": "",
                                   "verifier_output": "", "counterexample": rec, "item": None, "unit": "probe", "bounded": True})
     else:
@@ -50,14 +50,13 @@ def run(pid, tier, seed):
         out["guards"]["probe explored a non-empty set of cases"] = (cases > 0 or ev > 0)
         if cases == 0 and ev == 0:
             out["undecided"].append("probe explored nothing (vacuous)")
-        out["obligations"].append({"name": name, "backend": "native-exec", "tier": "Kb", "status": "bounded-ok", "ms": int((time.time() - t0) * 1000), "bound": bound})
         out["coverage"] = {
             "evaluations": ev,
             "distinct_nontrivial": cases,
             "rule": pc["rule"],
             "exhaustive": False,
-            "bounded": [{"harness": "probe::" + pc["func"], "bound": bound, "status": "no counterexample", "what": pc["what"]}],
         }
+        out["bounded_items"] = [{"harness": "probe::" + pc["func"], "bound": bound, "status": "no counterexample", "what": pc["what"]}]
         out["samples"].append(rec.get("sample", ""))
     out["solver_s"]["native-exec"] = time.time() - t0
     out["trusted"].append(pc.get("trusted", "replay/src/probe_*.rs oracle written from the property text; rustc codegen"))
